@@ -23,6 +23,10 @@ from . import htags
 SHAPES = [(), (1,), (2,), (3,), (4,), (0,), (2, 3), (3, 2), (3, 3), (1, 3),
           (4, 1), (2, 2), (0, 3), (2, 1, 2), (2, 3, 2)]
 SHAPE_W = [2, 1, 3, 6, 3, 1, 5, 3, 3, 1, 1, 2, 1, 1, 1]
+# bulk data: 0.5 KiB ... 1 MiB (with 8-byte items)
+BULK_SHAPES = [(64,), (512,), (1024,), (4096,), (8192,), (8193,), (16384,),
+               (128, 128), (130, 130), (32768,), (256, 256), (131072,),
+               (64, 64, 8)]
 DTYPES = ["float64", "float64", "float32", "int64", "int32", "complex128", "bool"]
 
 UNARY = ["neg", "abs", "sqrt", "sin", "cos", "exp", "tanh", "isnan",
@@ -123,18 +127,52 @@ def layout_array(a, layout):
     return np.ascontiguousarray(a)
 
 
-def apply_step(step, vals, shared=None):
-    """perform one recipe step with pytato; returns the new value"""
+def _salted(arr, salt):
+    """the same array with one element changed (which one, and how, follows
+    *salt*): 'the next time step's data'"""
+    if not salt or arr.size == 0:
+        return arr
+    arr = arr.copy()
+    flat = arr.reshape(-1)
+    i = salt % flat.size
+    if arr.dtype.kind == "b":
+        flat[i] = not flat[i]
+    else:
+        flat[i] = flat[i] + 1 + (salt // flat.size) % 5
+    return arr
+
+
+def bulk_data(p, salt=0):
+    """wrapped data too large to spell out in the recipe: generated from a seed
+    (numpy's PCG64 stream is specified, the same in every process)"""
+    g = np.random.Generator(np.random.PCG64(p["seed"]))
+    shape = tuple(p["shape"])
+    dt = np.dtype(p["dtype"])
+    if dt.kind == "b":
+        a = g.integers(0, 2, size=shape).astype(dt)
+    elif dt.kind in "iu":
+        a = g.integers(-1000, 1000, size=shape).astype(dt)
+    else:
+        a = (g.integers(-4096, 4096, size=shape) / 8).astype(dt)
+    return _salted(a, salt)
+
+
+def apply_step(step, vals, shared=None, salt=0):
+    """perform one recipe step with pytato; returns the new value.  *salt*
+    != 0 perturbs all wrapped data (one element each)."""
     import pytato as pt
     op, a, p = step["op"], [vals[i] for i in step["args"]], step.get("p", {})
     if op == "ph":
         return pt.make_placeholder(p["name"], tuple(p["shape"]), np.dtype(p["dtype"]))
-    if op == "dw":
+    if op in ("dw", "dwgen"):
         if shared is not None and step["id"] in shared:
             return shared[step["id"]]
-        res = pt.make_data_wrapper(
-            layout_array(np.array(p["data"], dtype=p["dtype"]).reshape(
-                tuple(p["shape"])), p.get("layout", "C")))
+        if op == "dw":
+            arr = _salted(np.array(p["data"], dtype=p["dtype"]).reshape(
+                tuple(p["shape"])), salt)
+        else:
+            arr = bulk_data(p, salt)
+        res = pt.make_data_wrapper(layout_array(arr, p.get("layout", "C")))
         if shared is not None:
             shared[step["id"]] = res
         return res
@@ -285,14 +323,15 @@ def apply_step(step, vals, shared=None):
     raise ValueError(op)
 
 
-def build(recipe, shared=None):
+def build(recipe, shared=None, salt=0):
     """-> (values, outputs).  outputs: DictOfNamedArrays (or a single Array if
-    recipe['single']).  *shared*: dict step id -> DataWrapper to reuse."""
+    recipe['single']).  *shared*: dict step id -> DataWrapper to reuse.
+    *salt*: see apply_step."""
     import pytato as pt
     vals: list = []
     for i, step in enumerate(recipe["steps"]):
         step = dict(step, id=i)
-        vals.append(apply_step(step, vals, shared))
+        vals.append(apply_step(step, vals, shared, salt))
     if recipe.get("single"):
         return vals, vals[recipe["outs"][0][1]]
     outs = {name: vals[i] for name, i in recipe["outs"]}
@@ -315,6 +354,11 @@ class _G:
         self.nph = 0
         self.nsz = 0
         self.ntag = 0
+        # "bulk" recipes wrap data on both sides of the sizes at which
+        # allocators and caches change strategy (kilobytes to a megabyte);
+        # everything else stays tiny
+        self.bulk = profile == "any" and rng.random() < 0.15
+        self.max_size = (1 << 17) if self.bulk else 96
 
     def arr_ids(self, pred=None):
         import pytato as pt
@@ -346,7 +390,7 @@ class _G:
                 if self.profile == "codegen" and step["op"] not in (
                         "sizeph", "add", "mul", "sum", "scalar", "neg", "sin"):
                     return None
-            elif v.size > 96 or v.ndim > 3:
+            elif v.size > self.max_size or v.ndim > 3:
                 return None
             v.dtype, v.axes, v.tags, hash(v)
         except Exception:  # noqa: BLE001
@@ -360,6 +404,15 @@ class _G:
         k = rng.random()
         shape = list(rng.choices(SHAPES, SHAPE_W)[0])
         dtype = rng.choice(DTYPES)
+        if self.bulk and rng.random() < 0.5:
+            if dtype == "complex128":
+                dtype = "float64"
+            return self.try_step({"op": "dwgen", "args": [],
+                                  "p": {"seed": rng.randrange(2 ** 31),
+                                        "dtype": dtype,
+                                        "shape": list(rng.choice(BULK_SHAPES)),
+                                        "layout": rng.choice(
+                                            ["C", "C", "C", "F", "strided"])}})
         if k < 0.5:
             self.nph += 1
             return self.try_step({"op": "ph", "args": [],
